@@ -47,6 +47,11 @@ def _week1_start(y, wkst):
     return jan4 - (((jan4 - 1) % 7 - wkst) % 7)
 
 
+# sub-daily rules: at most this many rejected days are skipped in one enumeration (the implementation walks the time
+# filters second by second after each rejected day, so a far horizon is expensive to compare against)
+MAX_DAY_SKIPS = 8
+
+
 def week_info(d, wkst):
     """-> (week-year, week number, number of weeks in that week-year) for weeks starting on wkst"""
     o = d.toordinal()
@@ -205,28 +210,20 @@ class Spec(object):
             cur = D.datetime(st.year, st.month, st.day, st.hour, st.minute if f >= MINUTELY else 0,
                              st.second if f >= SECONDLY else 0)
             step = D.timedelta(seconds=unit * s.interval)
+            skips = 0
             while True:
                 o = cur.toordinal()
                 yield o, o, cur.hour, (cur.minute if f >= MINUTELY else None), (cur.second if f >= SECONDLY else None)
-                # Periods inside a day / hour / minute that the rule rejects as a whole are empty by definition: go straight
-                # to the first period k*interval (k integral) that starts in the next day / hour / minute.  (Pure arithmetic on
-                # the period grid; lets the reference reach the next accepted day of a SECONDLY rule within its period budget.)
+                # Periods inside a day that the rule rejects as a whole are empty by definition: go straight to the first
+                # period k*interval (k integral) that starts on the next day.  (Pure arithmetic on the period grid; lets the
+                # reference reach the next accepted day of a SECONDLY rule within its period budget.  Rejected hours / minutes
+                # are NOT skipped: the implementation walks them period by period, and a horizon far beyond what it can reach
+                # cheaply would only make every comparison slow.)
                 nxt = None
-                if not s.day_ok(cur.date()):
+                if skips < MAX_DAY_SKIPS and not s.day_ok(cur.date()):
+                    skips += 1
                     nxt = D.datetime(cur.year, cur.month, cur.day) + D.timedelta(days=1) if o < MAXORD else None
                     if o >= MAXORD:
-                        return
-                elif f > HOURLY and s.byhour is not None and cur.hour not in s.byhour:
-                    nxt = D.datetime(cur.year, cur.month, cur.day, cur.hour)
-                    try:
-                        nxt = nxt + D.timedelta(hours=1)
-                    except OverflowError:
-                        return
-                elif f == SECONDLY and s.byminute is not None and cur.minute not in s.byminute:
-                    nxt = D.datetime(cur.year, cur.month, cur.day, cur.hour, cur.minute)
-                    try:
-                        nxt = nxt + D.timedelta(minutes=1)
-                    except OverflowError:
                         return
                 k = 1
                 if nxt is not None:
